@@ -423,10 +423,17 @@ func c13Memory(t *fw.T) {
 	r := t.Rng
 	size := gen.Pick(r, []int{0, 8, 64, 512, 4096})
 	maxTok := gen.Pick(r, []int{1, 5, 40, 300, 3000, 20000})
-	disc := gen.Pick(r, []string{"immediate", "delayed"})
+	// afterpeek: every token is freed, but only after the caller has looked at the first byte of the next one (a lexer that
+	// peeks ahead before it hands a token to its consumer); fixed: all tokens have the same length, so that token ends
+	// and buffer ends coincide regularly
+	disc := gen.Pick(r, []string{"immediate", "delayed", "afterpeek"})
+	fixed := r.Intn(3) == 0
+	if fixed {
+		maxTok = gen.Pick(r, []int{1, 5, 8, 16, 40, 64, 300})
+	}
 	base := 200000 + r.Intn(100000)
 	seed := r.Int63()
-	t.Desc(map[string]any{"size": size, "maxTok": maxTok, "discipline": disc, "baseLen": base, "seed": seed})
+	t.Desc(map[string]any{"size": size, "maxTok": maxTok, "discipline": disc, "fixedLength": fixed, "baseLen": base, "seed": seed})
 	run := func(total int) (held int, alloc uint64, longest int, ok bool) {
 		rr := newRand(seed)
 		src := &patternReader{total: total, maxChunk: 1 + rr.Intn(8192)}
@@ -445,6 +452,9 @@ func c13Memory(t *fw.T) {
 		off := 0
 		for {
 			n := 1 + rr.Intn(maxTok)
+			if fixed {
+				n = maxTok
+			}
 			i := 0
 			for ; i < n; i++ {
 				c := z.Peek(i)
@@ -475,6 +485,9 @@ func c13Memory(t *fw.T) {
 				return 0, 0, 0, false
 			}
 			if disc == "immediate" {
+				z.Free(sl)
+			} else if disc == "afterpeek" {
+				z.Peek(0)
 				z.Free(sl)
 			} else {
 				// ring of 5 delayed frees (no allocation in the measured loop)
